@@ -633,7 +633,9 @@ func writeEvidence(w *World, res *checkResult, path string, seed int) {
 	}
 	cov["violations"] = vio
 	if len(res.Known) > 0 {
-		cov["explanation"] = fmt.Sprintf("%d obligations are not discharged and match entries of known-findings.txt; they are counted as not discharged", len(res.Known))
+		// a property with an open finding is not proved as a whole: the level is reported as "other"
+		level = "other"
+		cov["explanation"] = fmt.Sprintf("Deductive verification of every clause of this property; %d of the %d obligations are NOT discharged and match entries of known-findings.txt (%s): the property does not hold on this tree for those clauses (each with a replay on the real code), all other obligations are discharged. Not reported as a proof because obligations != discharged.", len(res.Known), len(res.Groups), strings.Join(res.Known, ", "))
 	}
 	if res.Lockset != nil {
 		cov["lock_discipline"] = res.Lockset
